@@ -24,7 +24,7 @@ PROPS = {
                 rule='builder cases; non-trivial = some function has rank > 0; distinct = distinct call sequence',
                 exhaustive_scope='every edge subset on n<=4 nodes in two insertion orders',
                 explanation='theorem: rank = length of the longest chain of user edges ending at the function'),
-    'C14': dict(bundle='builder', tags=['TI', 'TS', 'TR', 'TM', 'FO', 'FE', 'TN', 'TNM', 'TNI', 'TF', 'TE', 'PM1', 'PM2', 'PM3', 'PM4', 'CLI', 'CLR', 'CFI', 'CFR', 'CGI', 'CGR', 'CEQ'], kinds=['B'], monitor=rb.mon_c14,
+    'C14': dict(bundle='builder', tags=['TI', 'TS', 'TR', 'TM', 'FO', 'FE', 'TN', 'TNM', 'TNI', 'TF', 'TE', 'PM1', 'PM2', 'PM3', 'PM4', 'NI', 'NR', 'ZI', 'ZR', 'CLI', 'CLR', 'CFI', 'CFR', 'CGI', 'CGR', 'CEQ'], kinds=['B'], monitor=rb.mon_c14,
                 nontrivial=lambda c: c.obs.get('E', '-') != '-',
                 rule='builder cases; every sequential iterator walked; try_fold/try_for_each with each (n<=4) or two random failing positions; non-trivial = graph with at least one edge',
                 exhaustive_scope='every edge subset on n<=4 nodes, every failing position',
@@ -340,7 +340,8 @@ def evaluate_bundle(prop, spec, bdir, meta):
         res['hang_case'] = hc
         kind = hc.split()[1] if len(hc.split()) > 1 else ''
         if (prop, kind) in (('C04', 'X'), ('C10', 'X'), ('C05', 'S'), ('C11', 'B'), ('C18', 'B'), ('C15', 'H'), ('C20', 'Y'), ('C20', 'Z'), ('C20', 'W')):
-            res['monitor_failures'].append(dict(what='a library call did not return within the harness time budget while running this case',
+            res['monitor_failures'].append(dict(what=('a library call did not return within the harness time budget while running this case' if meta.get('harness_rc') == 124
+                                                      else 'the harness process died (abort / stack overflow, rc %s) while the library was running this case' % meta.get('harness_rc')),
                                                 case_line=hc, key='hang', obs_lines=[]))
     n_extra = sum(1 for m in res['mismatches'] if m is None)
     res['mismatches'] = [m for m in res['mismatches'] if m is not None]
